@@ -13,17 +13,20 @@
                    observed client outcome   TL [TI 0; slot] | TL [TI 1; TI exc; value] | TL [TI 2; TI kind; TB text]
                                              | TL [TI 3; TI kind; TB text] | TL [TI 4] (timed out) | TL [TI 5] (other error);
                    TI number of reply frames seen;
-                   TL [] | TL [TB request payload]   (binary protocol: the request as it travelled, without the frame size);
-                   TL [] | TL [TB reply payload]     (binary protocol: the reply as it travelled);
+                   TL [] | TL [TB request payload]   (binary and compact protocols: the request as it travelled, without the frame size);
+                   TL [] | TL [TB reply payload]     (binary and compact protocols: the reply as it travelled);
                    TL [] | TL [TL [] | TL [TB name]; TL [] | TL [TI type]]   tampering applied to the reply before the client saw it;
-                   TI fuel ]
+                   TI fuel;
+                   TI protocol ]   0 TBinaryProtocol, 1 TCompactProtocol (the model runs over [compact_codec]), 2 TJSONProtocol
+                                   (no JSON codec in the model: judged at the level of values, over [bin_codec], no bytes)
     result    -(i+1) if call i is not reproduced by the model, else the union of the branch tags:
               1 value returned, 2 declared exception, 4 undeclared error -> INTERNAL_ERROR, 8 TApplicationException passed on,
               16 oneway without reply, 32 oneway with an error reply, 64 unknown method, 128 reply rejected (name / type),
               256 inherited method, 512 RESPONSE_TOO_LARGE mapping, 1024 byte-level replay of request and reply,
-              2048 reply not delivered (timeout), 4096 arguments refused by the generated Write (nothing sent). *)
+              2048 reply not delivered (timeout), 4096 arguments refused by the generated Write (nothing sent),
+              8192 the call was replayed over the compact codec. *)
 From Coq Require Import ZArith List Bool.
-From FV Require Import Base.Res Base.Bytes Model.Headers Model.Receivers Model.ThriftBin Model.GenCall
+From FV Require Import Base.Res Base.Bytes Model.Headers Model.Receivers Model.ThriftBin Model.ThriftCompact Model.GenCall
      Judge.Wire Judge.JThriftBin.
 Import ListNotations.
 Open Scope Z_scope.
@@ -88,14 +91,14 @@ Fixpoint log_matches (l : hlog) (obs : list tok) : bool :=
   end.
 
 (** the harness' tampering, on the model's reply: rewrite name / type of the message header *)
-Definition tamper (t : tok) (reply : bytes) : res bytes :=
+Definition tamper (cd : codec) (t : tok) (reply : bytes) : res bytes :=
   match t with
   | TL [tn; tty] =>
     do (hs, r1) <- read_header reply;
-    do (nm, typ, seq, r2) <- msg_begin_dec r1;
+    do (nm, typ, seq, r2) <- cd_msg_dec cd r1;
     let nm' := match tn with TL [TB x] => x | _ => nm end in
     let typ' := match tty with TL [TI x] => x | _ => typ end in
-    Ok (marshal hs ++ msg_begin_enc nm' typ' seq ++ r2)
+    Ok (marshal hs ++ cd_msg_enc cd nm' typ' seq ++ r2)
   | _ => Ok reply
   end.
 Definition tampered (t : tok) : bool := match t with TL [_; _] => true | _ => false end.
@@ -128,6 +131,8 @@ Definition judge_call (e : env) (ss : services) (c : tok) : Z :=
   let orep := nth_tok 11 f in
   let tam := nth_tok 12 f in
   let fuel := Z.to_nat (as_int (nth_tok 13 f)) in
+  let proto := as_int (nth_tok 14 f) in
+  let cd := if proto =? 1 then compact_codec else bin_codec in
   let sfuel := S (length ss) in
   let h : handler := fun _ _ => o in
   match client_resolve sfuel ss cs go with
@@ -142,13 +147,13 @@ Definition judge_call (e : env) (ss : services) (c : tok) : Z :=
     (* 1. the model end to end *)
     let end_to_end :=
         if tampered tam then
-          match client_prepare e m hdrs args with
+          match client_prepare_c cd e m hdrs args with
           | Ok req =>
-            match server_process fuel e pm h req with
+            match server_process_c cd fuel e pm h req with
             | Ok (Some reply, log) =>
-              match tamper tam reply with
+              match tamper cd tam reply with
               | Ok reply' =>
-                if coutcome_matches (process_reply fuel e m reply') oclient && log_matches log olog && (oreplies =? 1)
+                if coutcome_matches (process_reply_c cd fuel e m reply') oclient && log_matches log olog && (oreplies =? 1)
                 then 128 else -1
               | _ => -1
               end
@@ -157,7 +162,7 @@ Definition judge_call (e : env) (ss : services) (c : tok) : Z :=
           | _ => -1
           end
         else
-          match rpc_call fuel e pm h registry m hdrs args with
+          match rpc_call_c cd fuel e pm h registry m hdrs args with
           | Ok (cm, log, out) =>
             if coutcome_matches cm oclient && log_matches log olog
                && (oreplies =? match out with Some _ => 1 | None => 0 end)
@@ -165,22 +170,22 @@ Definition judge_call (e : env) (ss : services) (c : tok) : Z :=
           | _ => -1
           end in
     if end_to_end <? 0 then -1 else
-    (* 2. byte level (binary protocol): the server model on the request that travelled, the client
+    (* 2. byte level (binary and compact protocols): the server model on the request that travelled, the client
           model on the reply that travelled *)
-    match oreq with
+    let r := match oreq with
     | TL [TB req] =>
-      match server_process fuel e pm h req with
+      match server_process_c cd fuel e pm h req with
       | Ok (out, log) =>
         if negb (log_matches log olog) then -1 else
         match out, orep with
         | None, TL [] => end_to_end + 1024
         | Some reply, TL [TB obs] =>
           if negb (zlen reply =? zlen obs) then -1 else
-          match (if tampered tam then tamper tam obs else Ok obs) with
+          match (if tampered tam then tamper cd tam obs else Ok obs) with
           | Ok obs' =>
             if m_oneway m then end_to_end + 1024
             else if coutcome_matches (if reply_reaches_caller registry hdrs obs'
-                                      then process_reply fuel e m obs' else CTimeout) oclient
+                                      then process_reply_c cd fuel e m obs' else CTimeout) oclient
             then end_to_end + 1024 else -1
           | _ => -1
           end
@@ -189,7 +194,8 @@ Definition judge_call (e : env) (ss : services) (c : tok) : Z :=
       | _ => -1
       end
     | _ => end_to_end
-    end
+    end in
+    if r <? 0 then -1 else r + (if proto =? 1 then 8192 else 0)
   end.
 
 Fixpoint judge_calls (e : env) (ss : services) (cs : list tok) (i : Z) (acc : Z) : Z :=
